@@ -296,6 +296,8 @@ pub struct GenCfg {
     pub op_w: [u32; 9],
     pub qmax: u64,
     pub zero_pct: u32,
+    /// probability (percent) that a layered order has nothing hidden (None: zero_pct + 5)
+    pub hid_zero_pct: Option<u32>,
     /// match quantities are sums of the displayed quantities of a prefix of the arrival order
     pub exact_fills: bool,
     pub reuse_ids: bool,
@@ -320,6 +322,7 @@ impl GenCfg {
             op_w: [30, 30, 8, 10, 4, 4, 4, 0, 0],
             qmax: 20,
             zero_pct: 3,
+            hid_zero_pct: None,
             exact_fills: false,
             reuse_ids: true,
             ts: TsMode::Increasing,
@@ -427,7 +430,7 @@ impl Gen {
                     v = (h / (1 + self.rng.below(8))).max(1);
                     h
                 }
-            } else if self.rng.below(100) < (self.cfg.zero_pct as u64 + 5) {
+            } else if self.rng.below(100) < self.cfg.hid_zero_pct.map(|x| x as u64).unwrap_or(self.cfg.zero_pct as u64 + 5) {
                 0
             } else {
                 *self.rng.pick(&[1u64, 2, 3, 5, 8, 13, 21, 79, 80, 81, 200])
@@ -446,7 +449,7 @@ impl Gen {
             p.amt = *self.rng.pick(&[Some(h / 3 + 1), Some(1 << 58), Some(u64::MAX)]);
         } else {
             p.thr = *self.rng.pick(&[0u64, 0, 1, 2, 3, 5, 10]);
-            p.amt = *self.rng.pick(&[None, None, Some(0), Some(1), Some(2), Some(3), Some(7), Some(100)]);
+            p.amt = *self.rng.pick(&[None, None, Some(0), Some(1), Some(2), Some(3), Some(7), Some(79), Some(80), Some(81), Some(100)]);
         }
         p.auto = self.rng.chance(3, 4);
         p.trail = self.rng.below(20);
